@@ -1,11 +1,12 @@
 CONSTANT DocSeq <- D3
-CONSTANT MaxSeq = 4
-CONSTANT MaxSteps = 5
+CONSTANT MaxSeq = 5
+CONSTANT MaxSteps = 7
 CONSTANT MaxLens = {1, 2, 3}
 CONSTANT MinLens = {0}
 CONSTANT Lims = {0, 1, 2}
 CONSTANT AOs = {TRUE, FALSE}
 CONSTANT MaxPending = 1
+CONSTANT MaxInter = 2
 CONSTANT Acts <- AllActs
 CONSTANT RecordReads = FALSE
 CONSTANT HitSteps = FALSE
